@@ -15,7 +15,7 @@ from vp.runner import Sel
 
 FILES = C01.FILES
 FUNCTIONS = C01.FUNCTIONS
-BOUNDS = {"quick": "A: every graph of the small family (universe {0,1,2}, listed restrictions) of each class; B: every member of the same family (SCRG: same atom set), every "
+BOUNDS = {"quick": "all pairs of 10 carbon skeletons that 1-WL cannot separate or that have many automorphisms (P4, prism, K33, hexagon, two triangles, bicyclo[1.1.1]pentane, cube, decalin, bicyclopentyl; seeded renumberings); A: every graph of the small family (universe {0,1,2}, listed restrictions) of each class; B: every member of the same family (SCRG: same atom set), every "
                    "single-feature mutation of A, the same spec in the other three classes; templates star4/lonepair/dbond/ring4/sn2: A any "
                    "ordering/parity (strided), B every ordering x parity of the same template and every single-feature mutation",
           "thorough": "as quick with universe {0,1,2,3} for MG, full SCRG pair space, templates star5, star6 (strided), twocentre"}
@@ -181,6 +181,13 @@ def template(t, cls, **sel):
     return _mutation_and_class_checks(spec, ga, sa)
 
 
+def hard(i, j, ri, rj, cls):
+    """pairs of carbon skeletons that colour refinement cannot separate (prism/K33, hexagon/two triangles, decalin/bicyclopentyl, ...)"""
+    cname = gl.CLS_NAMES[cls]
+    ga, gb = gl.build(tmpl.skeleton(cname, i, ri)), gl.build(tmpl.skeleton(cname, j, rj))
+    return _judge("eq", ga, gl.snap(ga), gb, gl.snap(gb), f"{tmpl.SKELETON_NAMES[i]}(renumbering {ri}) vs {tmpl.SKELETON_NAMES[j]}(renumbering {rj})")
+
+
 def pair_units(tier, func=None):
     units = []
     for cname in gl.CLS_NAMES:
@@ -192,6 +199,10 @@ def pair_units(tier, func=None):
 
 def plan(tier, seed):
     units = pair_units(tier)
+    nsk = len(tmpl.SKELETON_NAMES)
+    units.append(Sel(name="hard_skeleton_pairs", func="vp.props.C02:hard",
+                     params={"i": (0, nsk), "j": (0, nsk), "ri": (0, 4 if tier == "quick" else 12), "rj": (0, 4 if tier == "quick" else 12), "cls": (0, 2)},
+                     pre=["cls == 0 or (ri < 2 and rj < 2)"], shard_by=[], timeout=1500, nontrivial="i != j"))
     names = ["star4", "lonepair", "dbond", "ring4", "sn2"] + (["twocentre", "star5", "star6"] if tier == "thorough" else [])
     for (n, c, p, pr) in eqfam.template_units(names):
         params = {"t": (C01.TNAMES.index(n), C01.TNAMES.index(n) + 1), "cls": (gl.CLS_NAMES.index(c), gl.CLS_NAMES.index(c) + 1)}
